@@ -977,6 +977,34 @@ fn write_into<'a, T: Elem + 'a>(s: S<'a, T>, buf: BufKind, len: usize, slack: us
             let v: Array1<T> = unsafe { UninitVec::assume_init(u) };
             mk(res, v.iter().map(|x| Some(x.obs())).collect())
         },
+        BufKind::SubSlice => {
+            // the caller's buffer is the middle of a larger allocation: the slots before and
+            // after it must stay untouched
+            let mut big: Vec<MaybeUninit<T>> = <Vec<T> as Vec1<T>>::uninit(len + 2 + slack);
+            for slot in big.iter_mut() {
+                slot.write(T::sentinel());
+            }
+            let res = {
+                let mut r: &mut [MaybeUninit<T>] = &mut big[1..1 + len];
+                it.write(&mut r)
+            };
+            let v: Vec<T> = unsafe { UninitVec::assume_init(big) };
+            let mut slots: Vec<Option<Obs>> = v[1..1 + len].iter().map(|x| Some(x.obs())).collect();
+            for (i, x) in v.iter().enumerate() {
+                if i == 0 || i > len {
+                    let o = x.obs();
+                    let untouched = match &o {
+                        Obs::B(b) => *b == F64_SENTINEL_BITS || *b == (I32_SENTINEL as i64 as u64),
+                        Obs::T(origin, _) => *origin == -999,
+                        _ => false,
+                    };
+                    if !untouched {
+                        slots.push(Some(o));
+                    }
+                }
+            }
+            mk(res, slots)
+        },
         BufKind::NdStrided => {
             // every second slot of a larger uninitialised buffer; the slots in between must
             // stay untouched
